@@ -71,11 +71,11 @@ Qed.
 (* ---- tie to the source: src/message.rs itself, translated by /verif/rs2coq on this run
    (Gen/Code.v), computes what the model computes. Inside message.rs a message is the pair of
    vectors `tags`, `values` (always of equal length); the model's message is `combine tags values`. ---- *)
-Require RV.Model.GenSupport RV.Gen.Code RV.Proofs.CodeMessage.
+Require RV.Model.GenSupport RV.Gen.Code RV.Proofs.CodeLib RV.Proofs.CodeMsgEnc RV.Proofs.CodeMsgDec RV.Proofs.CodeMsgRound.
 
 Theorem C05_translated_decoder_is_model :
   forall bs, RV.Gen.Code.gen_from_bytes bs = from_bytes bs.
-Proof. exact RV.Proofs.CodeMessage.gen_from_bytes_model. Qed.
+Proof. exact RV.Proofs.CodeMsgDec.gen_from_bytes_model. Qed.
 Print Assumptions C05_translated_decoder_is_model.
 
 Theorem C05_translated_encoder_is_model :
@@ -83,15 +83,15 @@ Theorem C05_translated_encoder_is_model :
     RV.Gen.Code.gen_encode tags values = encode (combine tags values)
     /\ RV.Gen.Code.gen_encode_framed tags values = encode_framed (combine tags values)
     /\ RV.Gen.Code.gen_encoded_size tags values = Ok (N.of_nat (encoded_size (combine tags values))).
-Proof. exact RV.Proofs.CodeMessage.gen_encoder_model. Qed.
+Proof. exact RV.Proofs.CodeMsgEnc.gen_encoder_model. Qed.
 Print Assumptions C05_translated_encoder_is_model.
 
 Theorem C05_translated_fields_are_model :
   forall tags values t v, length tags = length values ->
     RV.Gen.Code.gen_add_field tags values t v
-      = RV.Proofs.CodeMessage.omap RV.Proofs.CodeMessage.unzip (add_field (combine tags values) t v)
+      = RV.Proofs.CodeLib.omap RV.Proofs.CodeLib.unzip (add_field (combine tags values) t v)
     /\ RV.Gen.Code.gen_get_field tags values t = Ok (get_field (combine tags values) t).
-Proof. exact RV.Proofs.CodeMessage.gen_fields_model. Qed.
+Proof. exact RV.Proofs.CodeMsgEnc.gen_fields_model. Qed.
 Print Assumptions C05_translated_fields_are_model.
 
 (* hence the round trip holds of the translated functions themselves *)
@@ -99,7 +99,7 @@ Theorem C05_translated_canonical :
   forall bs tags values, lenN bs < two32 -> length tags = length values ->
     RV.Gen.Code.gen_from_bytes bs = Ok (combine tags values) -> combine tags values <> [] ->
     RV.Gen.Code.gen_encode tags values = Ok bs.
-Proof. exact RV.Proofs.CodeMessage.gen_canonical. Qed.
+Proof. exact RV.Proofs.CodeMsgRound.gen_canonical. Qed.
 Print Assumptions C05_translated_canonical.
 
 (* ---- tie to the source: the integer literals of the functions this property's model stands for
